@@ -22,10 +22,14 @@ def zl(l):
 
 class BatchSpec(SeqSpec):
     component = "batch"
-    imports = "From Juniper Require Import Common.Base Conc.GoLTS Conc.Batch."
+    imports = "From Juniper Require Import Common.Base Conc.GoLTS Conc.Batch.\nFrom Juniper Require Conc.BatchMatcher."
+    # a rejection counts only when certified genuine (BatchMatcher.batch_reject_genuine: closures converged within the fuel)
     preamble = ("Definition chk (c : Z * fmode * list nat * nat * list lab) : bool :=\n"
-                "  let '(mw, m, calls, n, evs) := c in accepts_history mw m calls n evs.")
-    checkers = {"M": "chk"}
+                "  let '(mw, m, calls, n, evs) := c in accepts_history mw m calls n evs || negb (BatchMatcher.batch_converged mw m calls n evs).\n"
+                "Definition chk_conv (c : Z * fmode * list nat * nat * list lab) : bool :=\n"
+                "  let '(mw, m, calls, n, evs) := c in BatchMatcher.batch_converged mw m calls n evs.")
+    checkers = {"M": "chk", "converged": "chk_conv"}
+    informational = {"converged"}
 
     # ------------------------------------------------------------------ generator
     @staticmethod
